@@ -9,6 +9,7 @@ import GormModel.Lemmas.AssocPoly        -- polymorphic relations over a shared 
 import GormModel.Lemmas.AssocRef        -- referenced (non-primary) columns, argument records, zero-argument calls (regenerated sites)
 import GormModel.Lemmas.AssocFindings   -- kernel-checked witnesses of the listed findings + composite-key partial theorems
 import GormModel.Lemmas.AssocHandle     -- handles as values: Unscoped() is pure, sticky errors, reuse of a used *gorm.DB (F12h)
+import GormModel.Model.AssocSlices      -- round 6: backing arrays / slice headers of the in-memory relation field
 import GormModel.Lemmas.AssocKeys       -- record identity over typed key tuples: the IN lists name exactly the named tuples
 namespace Gorm
 open Gorm.Assoc
@@ -1309,6 +1310,82 @@ theorem C12_key_case_blank_example :
     (cleanSlice [k "en" 1, k "En" 4, k "EN" 2] [.many [k "en" 5, k "EN" 6]]).map (·.addr) = [4] ∧
     cleanSlice [k "en" 1, k "En" 4, k "EN" 2] [.many [k "en" 5, k "EN" 6]]
       = cleanExact [k "en" 1, k "En" 4, k "EN" 2] [.many [k "en" 5, k "EN" 6]] := by
+  decide
+
+/-! ## The caller's copies of the relation slice (round 6): association mode builds every new field value in fresh memory -/
+
+namespace AssocSlices
+
+theorem read_stepFresh_old (s : St) (op : SOp) (c : Hdr) (hc : c.arr < s.heap.length) :
+    read (stepFresh s op).heap c = read s.heap c := by
+  simp [read, stepFresh, List.getD_eq_getElem?_getD, List.getElem?_append_left hc]
+
+theorem read_stepFresh_field (s : St) (op : SOp) :
+    read (stepFresh s op).heap (stepFresh s op).field = newContents (read s.heap s.field) op := by
+  simp [read, stepFresh, List.getD_eq_getElem?_getD]
+
+theorem heap_le_stepFresh (s : St) (op : SOp) : s.heap.length < (stepFresh s op).heap.length := by
+  simp [stepFresh]
+
+theorem heap_le_runFresh : ∀ (ops : List SOp) (s : St), s.heap.length ≤ (runFresh s ops).heap.length
+  | [], _ => Nat.le_refl _
+  | op :: ops, s => Nat.le_trans (Nat.le_of_lt (heap_le_stepFresh s op)) (heap_le_runFresh ops (stepFresh s op))
+
+end AssocSlices
+
+open AssocSlices in
+/-- regenerated facts (association.go, current tree): the two slices grown by reflect.Append - `validFieldValues` of Delete's
+    in-memory clean-up, `fieldValue` of appendToRelations - start from reflect.Zero / reflect.MakeSlice and from nothing else;
+    association.go re-slices nothing (no `x[a:b]`, Slice, Slice3, SetLen, SetCap, Grow), writes into no element of a reflect
+    slice, and its only reflect.Copy fills such a fresh slice. This is what makes `stepFresh` the transcription. -/
+theorem C12_field_slices_fresh :
+    Gen.assocReslices = [] ∧ Gen.assocElemWrites = [] ∧
+    freshOrigins Gen.assocSliceOrigins = true ∧
+    Gen.assocSliceOrigins.map (fun o => (o.1, o.2.1)) =
+      [("Association.Delete", "validFieldValues"), ("Association.saveAssociation", "fieldValue"), ("Association.saveAssociation", "fieldValue")] ∧
+    (∀ b ∈ Gen.assocAppendBases, b ∈ Gen.assocSliceOrigins.map (fun o => (o.1, o.2.1))) ∧
+    (∀ d ∈ Gen.assocCopyDsts, d ∈ Gen.assocAppendBases) := by
+  decide
+
+open AssocSlices in
+/-- CAPTURED SLICES ARE STABLE: whatever sequence of Append / Replace / Delete / Clear a record receives, a slice header the
+    caller AssocSlices.read from the field before (any header into the heap as it was then) shows the same records afterwards -/
+theorem C12_captured_slice_stable : ∀ (ops : List SOp) (s : AssocSlices.St) (c : Hdr), c.arr < s.heap.length →
+    AssocSlices.read (runFresh s ops).heap c = AssocSlices.read s.heap c
+  | [], _, _, _ => rfl
+  | op :: ops, s, c, hc => by
+    show AssocSlices.read (runFresh (stepFresh s op) ops).heap c = _
+    rw [C12_captured_slice_stable ops (stepFresh s op) c (Nat.lt_trans hc (heap_le_stepFresh s op)), read_stepFresh_old s op c hc]
+
+open AssocSlices in
+/-- ... and the field itself holds what set algebra says: Append adds, Replace sets, Delete drops the named, Clear empties -/
+theorem C12_field_after_call (s : AssocSlices.St) (op : SOp) :
+    AssocSlices.read (stepFresh s op).heap (stepFresh s op).field =
+      match op with
+      | .append vs => AssocSlices.read s.heap s.field ++ vs
+      | .replace vs => vs
+      | .delete vs => (AssocSlices.read s.heap s.field).filter (fun x => !vs.contains x)
+      | .clear => [] := by
+  rw [read_stepFresh_field]; cases op <;> rfl
+
+open AssocSlices in
+/-- "remember, change, restore" is sound: `all := u.Rel; Delete(named…); Replace(all)` and `old := u.Rel; Replace(vs); Append(old)`
+    name - through the remembered slice - exactly the records it held when it was AssocSlices.read -/
+theorem C12_remember_then_restore (s : AssocSlices.St) (hf : s.field.arr < s.heap.length) (op : SOp) :
+    let all := s.field
+    let s1 := stepFresh s op
+    AssocSlices.read (stepFresh s1 (.replace (AssocSlices.read s1.heap all))).heap (stepFresh s1 (.replace (AssocSlices.read s1.heap all))).field = AssocSlices.read s.heap s.field := by
+  simp only [read_stepFresh_field, newContents, read_stepFresh_old s op s.field hf]
+
+open AssocSlices in
+/-- what the facts exclude (kernel-checked): with the filter-in-place idiom `fieldValue.Slice(0, 0)` the field is still right
+    after `Delete(a)` on [a, b, c], but the caller's earlier copy reads [b, c, c]; after `Replace(c)` on [a, b] it reads [c, b] -/
+theorem C12_in_place_filter_counterexample :
+    let s : AssocSlices.St := ⟨[[1, 2, 3]], ⟨0, 3⟩⟩
+    AssocSlices.read (stepInPlace s (.delete [1])).heap (stepInPlace s (.delete [1])).field = [2, 3] ∧
+    AssocSlices.read (stepInPlace s (.delete [1])).heap s.field = [2, 3, 3] ∧
+    AssocSlices.read (stepInPlace ⟨[[1, 2]], ⟨0, 2⟩⟩ (.replace [3])).heap ⟨0, 2⟩ = [3, 2] ∧
+    AssocSlices.read (stepFresh s (.delete [1])).heap s.field = [1, 2, 3] := by
   decide
 
 end Gorm
